@@ -71,7 +71,7 @@ fn strip_ansi(s: &str) -> String {
 
 pub fn run(_args: &[String]) {
     let bin = std::env::var("VERIF_VARLINK_BIN").expect("VERIF_VARLINK_BIN");
-    let cases = Arc::new(read_cases());
+    let cases: Arc<Vec<Value>> = Arc::new(read_cases().into_iter().filter(|c| c.get("script").is_some()).collect());
     let dir = tmpdir("cli");
     let deep = dir.join("a").join("b.c").join("d");
     std::fs::create_dir_all(&deep).unwrap();
@@ -270,4 +270,117 @@ pub fn run(_args: &[String]) {
         emit(f);
     }
     emit(&json!({"summary": true, "cases": cases.len(), "executions": execs.load(Ordering::Relaxed), "failures": fails.lock().unwrap().len()}));
+}
+
+/// `vh cliforms` — the read-only commands (info / help / call) x ways of reaching the service (direct address,
+/// resolver lookup, --activate, --bridge) x known / unknown interface; expectations from Cli.tla CmdObserve.
+pub fn run_forms(_args: &[String]) {
+    use crate::conn::Server;
+    use crate::svc;
+    use std::convert::TryFrom;
+    let bin = std::env::var("VERIF_VARLINK_BIN").expect("VERIF_VARLINK_BIN");
+    let cases = read_cases();
+    let dir = tmpdir("cliforms");
+    let addr_a = format!("unix:{}/a", dir.display());
+    let addr_r = format!("unix:{}/r", dir.display());
+    let la: svc::SharedLog = Default::default();
+    let mut a = Server::start_with(&addr_a, 2, 8, svc::standard_service(la.clone()), la);
+    let mut map = std::collections::HashMap::new();
+    map.insert("org.example.gen".to_string(), addr_a.clone());
+    let lr: svc::SharedLog = Default::default();
+    let mut r = Server::start_with(&addr_r, 2, 8, svc::resolver_service(map), lr);
+    let exe = std::env::current_exe().unwrap().display().to_string();
+    let act = format!("{} actserve --varlink=$VARLINK_ADDRESS", exe);
+    let br = format!("{} stdioserve", exe);
+    let mut nfail = 0;
+    let mut execs = 0;
+    let want_descr = crate::idl::project(&varlink_parser::IDL::try_from(crate::conn::GEN_DESCR).unwrap());
+    for case in &cases {
+        let forms = match case.get("forms").and_then(|f| f.as_array()) {
+            Some(f) => f,
+            None => continue,
+        };
+        for f in forms {
+            let cmd = f["c"]["cmd"].as_str().unwrap();
+            let form = f["c"]["form"].as_str().unwrap();
+            let known = f["c"]["known"].as_bool().unwrap();
+            let obs = &f["obs"];
+            let iface = if known { "org.example.gen" } else { "org.unknown.x" };
+            for colour in ["off", "on"] {
+                let mut c = Command::new(&bin);
+                c.arg("--color").arg(colour);
+                match form {
+                    "resolver" => { c.arg("-R").arg(&addr_r); }
+                    "activate" => { c.arg("--activate").arg(&act); }
+                    "bridge" => { c.arg("--bridge").arg(&br); }
+                    _ => {}
+                }
+                match (cmd, form) {
+                    ("info", "direct") => { c.arg("info").arg(&addr_a); }
+                    ("info", "resolver") => { c.arg("info").arg(iface); }
+                    ("info", _) => { c.arg("info"); }
+                    ("help", "direct") => { c.arg("help").arg(format!("{}/{}", addr_a, iface)); }
+                    ("help", _) => { c.arg("help").arg(iface); }
+                    ("call", "direct") => { c.arg("call").arg(format!("{}/{}.Ping", addr_a, iface)).arg(r#"{"ping":"forms"}"#); }
+                    (_, _) => { c.arg("call").arg(format!("{}.Ping", iface)).arg(r#"{"ping":"forms"}"#); }
+                }
+                c.stdin(Stdio::null()).stdout(Stdio::piped()).stderr(Stdio::piped());
+                execs += 1;
+                let mut fail = |d: String| {
+                    nfail += 1;
+                    emit(&json!({"fail": true, "case": 0, "variant": format!("{} {} known={} color={}", cmd, form, known, colour), "detail": d,
+                        "sig": format!("forms {} {} known={}", cmd, form, known), "input": f}));
+                };
+                let mut child = match c.spawn() { Ok(ch) => ch, Err(e) => { fail(format!("cannot run {}: {}", bin, e)); continue; } };
+                let t0 = std::time::Instant::now();
+                let mut hung = false;
+                loop {
+                    match child.try_wait() {
+                        Ok(Some(_)) => break,
+                        Ok(None) => { if t0.elapsed() > Duration::from_secs(10) { let _ = child.kill(); hung = true; break; } std::thread::sleep(Duration::from_millis(1)); }
+                        Err(_) => break,
+                    }
+                }
+                let out = child.wait_with_output().unwrap();
+                if hung { fail("the command did not terminate within 10 s".into()); continue; }
+                let so = strip_ansi(&String::from_utf8_lossy(&out.stdout));
+                let se = strip_ansi(&String::from_utf8_lossy(&out.stderr));
+                let ok = out.status.success();
+                let want_ok = obs["exit"] == json!(0);
+                if ok != want_ok {
+                    fail(format!("exit status {:?}, expected {} -- stdout {:?} stderr {:?}", out.status, if want_ok { "success" } else { "failure" }, lossy(so.as_bytes()), lossy(se.as_bytes())));
+                    continue;
+                }
+                match obs["out"].as_str().unwrap() {
+                    "nothing" => {
+                        if !so.trim().is_empty() { fail(format!("output on stdout although the command failed: {:?}", lossy(so.as_bytes()))); }
+                        else if se.trim().is_empty() { fail("failure without a message on stderr".into()); }
+                    }
+                    "service-info" => {
+                        let lines: Vec<&str> = so.lines().collect();
+                        let has = |p: &str, v: &str| lines.iter().any(|l| l.trim() == format!("{} {}", p, v));
+                        let ifs: Vec<&str> = lines.iter().skip_while(|l| l.trim() != "Interfaces:").skip(1).map(|l| l.trim()).filter(|l| !l.is_empty()).collect();
+                        let mut sorted = ifs.clone();
+                        sorted.sort();
+                        if !(has("Vendor:", svc::VENDOR) && has("Product:", svc::PRODUCT) && has("Version:", svc::VERSION) && has("URL:", svc::URL))
+                            || ifs.first() != Some(&"org.varlink.service") || sorted != vec!["org.example.gen", "org.example.script", "org.varlink.service"] {
+                            fail(format!("info output does not show the service's identity and interfaces: {:?}", lossy(so.as_bytes())));
+                        }
+                    }
+                    "formatted-description" => match varlink_parser::IDL::try_from(so.as_str()) {
+                        Ok(idl) => if crate::idl::project(&idl) != want_descr { fail(format!("help prints a different definition: {:?}", lossy(so.as_bytes()))); },
+                        Err(e) => fail(format!("help output does not parse ({}): {:?}", e, lossy(so.as_bytes()))),
+                    },
+                    _ => {
+                        let v: Option<Value> = serde_json::from_str(&so).ok();
+                        if v != Some(json!({"pong": "forms"})) { fail(format!("call printed {:?}, expected the reply parameters", lossy(so.as_bytes()))); }
+                    }
+                }
+            }
+        }
+    }
+    a.stop();
+    r.stop();
+    let _ = std::fs::remove_dir_all(&dir);
+    emit(&json!({"summary": true, "cases": cases.len(), "executions": execs, "failures": nfail}));
 }
